@@ -84,4 +84,325 @@ Section Local.
       destruct (t_offerer (S1 a)); [exact H'|]. destruct H' as (U1 & U2 & U3). repeat split; auto. left. clear. lia.
     - intros H1 H2 H3. destruct (PAns H1 H2 H3) as [[H H']|H]; [exfalso; clear - H'; lia|right; exact H].
   Qed.
+  (* sender a: offer -> answer? ; inb = "b has made an offer to a" *)
+  Lemma send_to3 a b (inb : bool) :
+    S2 b = S1 b ->
+    t_state (S1 a) = 2 -> t_state (S2 a) = 3 ->
+    t_cycle (S2 a) = t_cycle (S1 a) -> t_fin (S2 a) = t_fin (S1 a) -> t_partner (S2 a) = t_partner (S1 a) ->
+    t_committed (S2 a) = t_committed (S1 a) -> t_offerer (S2 a) = t_offerer (S1 a) ->
+    t_offerer (S1 a) = true ->
+    pd2 a b = pd1 a b ++ (if inb then [M2Answer false None None] else []) ->
+    (inb = true -> expA S1 b a) -> (expA S1 b a -> inb = true) ->
+    pairI rn S1 pd1 a b -> pairI rn S2 pd2 a b.
+  Proof.
+    intros Eb A1 A1' A2 A3 A7 A8 A9 Hoff Hp Hi1 Hi2 P. getP P.
+    assert (C : forall k, cnt k (pd2 a b) = cnt k (pd1 a b) + b2z inb * b2z (3 =? k)).
+    { intros k. rewrite Hp, cnt_app. destruct inb; [rewrite cnt_cons, cnt_nil; simpl kind_of|rewrite cnt_nil];
+      [change (b2z true) with 1|change (b2z false) with 0]; lia. }
+    assert (Hin : forall m, In m (pd2 a b) -> In m (pd1 a b) \/ (inb = true /\ m = M2Answer false None None)).
+    { intros m. rewrite Hp. intros H. apply in_app_or in H as [H|H]; [left; exact H|right].
+      destruct inb; [destruct H as [<-|[]]; auto|destruct H]. }
+    constructor; unf; rewrite ?Eb, ?C, ?A1', ?A2, ?A3, ?A7, ?A8, ?A9; rewrite ?A1 in *; simpl b2z;
+      rewrite ?Z.mul_0_r, ?Z.mul_1_r, ?Z.add_0_r; try assumption.
+    - simpl b2z in PG. rewrite Z.add_0_r in PG. exact PG.
+    - intros E _. rewrite PA0; [rewrite (Hi2 E); reflexivity|]. intros [_ H]. clear - H. lia.
+    - intros H. rewrite PA0; [|intros [_ H']; clear - H'; lia].
+      destruct inb; [|reflexivity]. exfalso. apply H. split; [apply Hi1; reflexivity|clear; lia].
+    - intros E [[_ H]|H]; [exfalso; clear - H; lia|]. apply PGo1; [exact E|right; exact H].
+    - intros H0. apply PGo0. intros [E [[_ H]|H]]; [clear - H; lia|]. apply H0. split; [exact E|right; exact H].
+    - intros f os H. apply Hin in H as [H|[_ H]]; [apply (PPO f os H)|discriminate].
+    - intros a0 v g H. apply Hin in H as [H|[_ H]]; [apply (PPA a0 v g H)|].
+      injection H as -> _ _. rewrite Hoff. simpl. rewrite andb_false_r. simpl. split; [reflexivity|discriminate].
+    - intros H1 H2. destruct (PL H1 H2) as [[_ H]|H]; [exfalso; clear - H; lia|right; exact H].
+  Qed.
+
+  (* receiver b: offer -> gain (b is not an offerer) *)
+  Lemma recv_to4 a b (com : bool) p :
+    S2 a = S1 a ->
+    t_state (S1 b) = 2 -> t_offerer (S1 b) = false -> t_committed (S1 b) = false ->
+    t_state (S2 b) = 4 ->
+    t_cycle (S2 b) = t_cycle (S1 b) -> t_fin (S2 b) = t_fin (S1 b) -> t_nv (S2 b) = t_nv (S1 b) ->
+    t_offers (S2 b) = t_offers (S1 b) -> t_ng (S2 b) = t_ng (S1 b) ->
+    t_partner (S2 b) = (if com then Some p else None) -> t_committed (S2 b) = com -> t_offerer (S2 b) = false ->
+    pd2 a b = pd1 a b ->
+    t_cycle (S1 a) = t_cycle (S1 b) -> t_state (S1 a) <= 4 ->
+    pairI rn S1 pd1 a b -> pairI rn S2 pd2 a b.
+  Proof.
+    intros Ea B1 Bo Bc B1' B2 B3 B4 B5 B6 B7 B8 B9 Hp Hcy Hk P. getP P.
+    constructor; unf; rewrite ?Ea, ?Hp, ?B1', ?B2, ?B3, ?B4, ?B5, ?B6, ?B7, ?B8, ?B9; rewrite ?B1, ?Bo, ?Bc in *;
+      try assumption.
+    - intros (E & _). discriminate.
+    - intros _. apply PA0. intros [(E & _) _]. discriminate.
+    - intros _ [[_ H]|H]; exfalso; clear - H Hcy Hk; lia.
+    - intros _. apply PGo0. intros [(E & _) _]. discriminate.
+    - intros f os H. exfalso. clear - H. lia.
+    - intros H1 H2. exfalso. destruct (PL H1 H2) as [[H _]|[_ H]]; [clear - H Hcy; lia|].
+      destruct (t_offerer (S1 a)); [destruct H as (_ & H & _)|destruct H as (H & _)]; discriminate.
+    - intros _ _ _. left. split; [symmetry; exact Hcy|clear; lia].
+  Qed.
+
+  (* sender a: offer -> gain (a is not an offerer); inb = "b has made an offer to a" *)
+  Lemma send_to4 a b (inb com : bool) p vp gain gv :
+    S2 b = S1 b -> rn a = true ->
+    t_state (S1 a) = 2 -> t_offerer (S1 a) = false -> t_committed (S1 a) = false ->
+    t_state (S2 a) = 4 ->
+    t_cycle (S2 a) = t_cycle (S1 a) -> t_fin (S2 a) = t_fin (S1 a) ->
+    t_partner (S2 a) = (if com then Some p else None) -> t_committed (S2 a) = com -> t_offerer (S2 a) = false ->
+    pd2 a b = pd1 a b ++ (if inb then [if com && (b =? p) then M2Answer true vp (Some gain) else M2Answer false None None]
+                          else []) ++ [M2Gain gv] ->
+    (inb = true -> expA S1 b a) -> (expA S1 b a -> inb = true) ->
+    (com = true -> gain <> 0) -> (com = true -> b = p -> inb = true) ->
+    t_cycle (S1 b) = t_cycle (S1 a) ->
+    pairI rn S1 pd1 a b -> pairI rn S2 pd2 a b.
+  Proof.
+    intros Eb Ra A1 Ao Ac A1' A2 A3 A7 A8 A9 Hp Hi1 Hi2 Hg Hpi Hcy P. getP P.
+    set (ans := if com && (b =? p) then M2Answer true vp (Some gain) else M2Answer false None None) in *.
+    assert (Ka : kind_of ans = 3) by (unfold ans; destruct (com && (b =? p)); reflexivity).
+    assert (C : forall k, cnt k (pd2 a b) = cnt k (pd1 a b) + b2z inb * b2z (3 =? k) + b2z (4 =? k)).
+    { intros k. rewrite Hp, !cnt_app, cnt_cons, cnt_nil. simpl kind_of.
+      destruct inb; [rewrite cnt_cons, cnt_nil, Ka|rewrite cnt_nil];
+      [change (b2z true) with 1|change (b2z false) with 0]; lia. }
+    assert (Hin : forall m, In m (pd2 a b) -> In m (pd1 a b) \/ (inb = true /\ m = ans) \/ m = M2Gain gv).
+    { intros m. rewrite Hp. intros H. apply in_app_or in H as [H|H]; [left; exact H|right].
+      apply in_app_or in H as [H|[<-|[]]]; [left|right; reflexivity].
+      destruct inb; [destruct H as [<-|[]]; auto|destruct H]. }
+    assert (Z3 : cnt 3 (pd1 a b) = 0).
+    { apply PA0. intros [_ H]. rewrite A1 in H. clear - H. lia. }
+    constructor; unf; rewrite ?Eb, ?C, ?A1', ?A2, ?A3, ?A7, ?A8, ?A9; rewrite ?A1, ?Ao, ?Ac, ?Ra in *; simpl b2z;
+      rewrite ?Z.mul_0_r, ?Z.mul_1_r, ?Z.add_0_r; try assumption.
+    - simpl b2z in PG. clear - PG. lia.
+    - intros E _. rewrite Z3, (Hi2 E). reflexivity.
+    - intros H. rewrite Z3. destruct inb; [|reflexivity]. exfalso. apply H. split; [apply Hi1; reflexivity|clear; lia].
+    - intros _ [[_ H]|H]; exfalso; clear - H Hcy; lia.
+    - intros _. apply PGo0. intros [_ [[_ H]|H]]; clear - H Hcy; lia.
+    - intros f os H. apply Hin in H as [H|[[_ H]|H]]; [apply (PPO f os H)| |discriminate].
+      unfold ans in H. destruct (com && (b =? p)); discriminate.
+    - intros a0 v g H. apply Hin in H as [H|[[Hb H]|H]]; [|clear Z3|discriminate].
+      + exfalso. apply in_cnt_pos in H. simpl kind_of in H. clear - H Z3. lia.
+      + unfold ans in H. destruct com; simpl in *.
+        * destruct (Z.eqb_spec b p) as [->|Hne].
+          -- injection H as -> _ ->. split; [reflexivity|]. intros _. exists gain. split; [reflexivity|].
+             apply Hg. reflexivity.
+          -- injection H as -> _ _. split; [reflexivity|discriminate].
+        * injection H as -> _ _. split; [reflexivity|discriminate].
+    - intros -> H2. injection H2 as <-. right. split; [exact Hcy|].
+      destruct (Hi1 (Hpi eq_refl eq_refl)) as (U1 & U2 & U3). repeat split; auto. left. clear - U3. lia.
+    - discriminate.
+  Qed.
 End Local.
+
+Lemma kino_snoc x' l x m : kino x' (l ++ [(x, m)]) = kino x' l || (x' =? x).
+Proof. unfold kino, zmem. rewrite map_app, existsb_app. simpl. rewrite orb_false_r. reflexivity. Qed.
+
+Lemma to_y2_off' {A} (g : Z * A -> node * m2msg) (msg : Z -> m2msg) (OFF : list (Z * A)) w :
+  (forall so, g so = (fst so, msg (fst so))) -> NoDup (map fst OFF) ->
+  to_y2 w (map g OFF) = if zmem w (map fst OFF) then [msg w] else [].
+Proof.
+  intros Hg Hnd. destruct (to_y2_off g OFF w (fun so => f_equal fst (Hg so)) Hnd) as [H1 H2].
+  destruct (zmem w (map fst OFF)) eqn:E.
+  - apply zmem_In in E. apply in_map_iff in E as [[w' os] [Hw Hi]]. simpl in Hw. subst w'.
+    rewrite (H2 os Hi), Hg. reflexivity.
+  - apply H1. intros Hc. apply zmem_In in Hc. congruence.
+Qed.
+
+Section StepO.
+  Variable d : dcop.
+  Variable stop thr favor : Z.
+  Notation nbr := (nbrs d).
+  Notation doneb := (doneb stop).
+  Notation InvA := (InvA d stop).
+  Notation good := (good d stop).
+  Variable rn : node -> bool.
+  Variable S : node -> m2st.
+  Variable pd : node -> node -> list m2msg.
+  Hypothesis HI : InvA rn S pd.
+  Notation step_ok := (step_ok d stop thr favor rn S pd).
+  Notation pos_facts := (pos_facts d stop rn S pd HI).
+  Notation le_facts := (le_facts d stop rn S pd HI).
+  Notation pending_nbr := (pending_nbr d stop rn S pd HI).
+  Notation evok := (evok stop).
+
+  (* a neighbour w of y (state offer) whose offer of the current cycle has reached y *)
+  Lemma nbr_here y w : rn y = true -> t_state (S y) = 2 -> In w (nbr y) ->
+    0 < cnt 2 (pd w y) + b2z (kino w (t_offers (S y))) ->
+    rn w = true /\ t_cycle (S w) = t_cycle (S y) /\ 2 <= t_state (S w) <= 4 /\
+    cnt 2 (pd w y) + b2z (kino w (t_offers (S y))) = 1.
+  Proof.
+    intros Ry Hk Hw Hpos. pose proof (i_pair _ _ _ _ _ HI w y Hw) as P. pose proof (p_O _ _ _ _ _ P) as E. clear P.
+    unf. rewrite Ry in E.
+    pose proof (g_c _ _ _ _ (i_good _ _ _ _ _ HI y Ry (act_of d w y Hw))) as Cy.
+    assert (Rw : rn w = true). { destruct (rn w); [reflexivity|]. exfalso. clear - E Cy Hpos. lia. }
+    rewrite Rw in E. destruct (pos_facts w y Hw Rw Ry) as (Q1 & Q2 & Q3).
+    pose proof (g_k _ _ _ _ (i_good _ _ _ _ _ HI w Rw (act_of d y w (nbrs_sym d y w Hw)))) as Kw.
+    pose proof (b2z_range (2 <=? t_state (S w))) as Bw.
+    assert (Hle : t_cycle (S w) <= t_cycle (S y)) by (clear - Q1 Q2 Hk; lia).
+    assert (Hc : t_cycle (S w) = t_cycle (S y) /\ cnt 2 (pd w y) + b2z (kino w (t_offers (S y))) = 1 /\
+                 b2z (2 <=? t_state (S w)) = 1) by (clear - E Hpos Bw Hle; lia).
+    destruct Hc as (Hc & H1 & H2). destruct (Q3 Hc) as (_ & Q5 & _).
+    split; [exact Rw|]. split; [exact Hc|]. split; [|exact H1].
+    destruct (Z.leb_spec 2 (t_state (S w))); simpl in H2; [|discriminate].
+    clear - H Kw Q5 Hk. lia.
+  Qed.
+
+  (* ============================================================ offer message *)
+  Lemma step_O y x f os l1 l2 : rn y = true -> pd x y = l1 ++ M2Offer f os :: l2 -> t_state (S y) = 2 ->
+    step_ok y x (M2Offer f os) l1 l2.
+  Proof.
+    intros Ry Hp Hk s2 o2 e2 Hm.
+    pose proof (pending_nbr x y _ _ _ Hp) as Hxy. pose proof (nbrs_sym d y x Hxy) as Hyx.
+    pose proof (act_of d x y Hxy) as Hact.
+    pose proof (i_good _ _ _ _ _ HI y Ry Hact) as Gy.
+    assert (Hne : x <> y) by (intros ->; eapply nbrs_irrefl; eauto).
+    pose proof (in_pd _ _ _ _ _ _ Hp) as Hinp.
+    pose proof (in_cnt_pos _ _ Hinp) as Hc1. simpl in Hc1.
+    destruct (nbr_here y x Ry Hk Hxy) as (Rx & Hcyc & Hkx & Hone).
+    { pose proof (b2z_range (kino x (t_offers (S y)))) as B. clear - B Hc1. lia. }
+    assert (Hko : kino x (t_offers (S y)) = false).
+    { destruct (kino x (t_offers (S y))); [exfalso; simpl in Hone; clear - Hone Hc1; lia|reflexivity]. }
+    unfold mstep, on_msg in Hm. simpl kind_of in Hm. rewrite Hk in Hm. simpl negb in Hm. cbv iota in Hm.
+    match type of Hm with context [handle_offer_messages _ _ _ _ ?t] =>
+      assert (KK : skel t = (t_state (S y), t_cycle (S y), t_fin (S y), t_nv (S y), t_offers (S y) ++ [(x, M2Offer f os)],
+                             t_ng (S y), t_partner (S y), t_committed (S y), t_offerer (S y), t_pgain (S y)) /\
+                   posts t = posts (S y))
+        by apply skel_set_offers;
+      remember t as s1 eqn:Es1 in * end.
+    clear Es1. destruct KK as [K1 Po1].
+    destruct (g_of _ _ _ _ Gy) as (Nd & Inc & Fk).
+    assert (Nd1 : NoDup (map fst (t_offers (S y) ++ [(x, M2Offer f os)])) /\
+                  incl (map fst (t_offers (S y) ++ [(x, M2Offer f os)])) (nbr y) /\
+                  Forall (fun sm => kind_of (snd sm) = 2) (t_offers (S y) ++ [(x, M2Offer f os)])).
+    { rewrite map_app. simpl. split; [|split].
+      - apply NoDup_snoc; [exact Nd|]. apply kino_false. exact Hko.
+      - intros z Hz. apply in_app_or in Hz as [Hz|[<-|[]]]; [apply Inc; exact Hz|exact Hxy].
+      - apply Forall_app. split; [exact Fk|]. constructor; [reflexivity|constructor]. }
+    unfold skel in K1. injection K1 as K1st K1cy K1fi K1nv K1of K1ng K1pa K1co K1or K1pg.
+    assert (SS1 : skelS s1 = skelS (S y)) by (unfold skelS; rewrite K1st, K1cy, K1fi, K1pa, K1co, K1or; reflexivity).
+    assert (Hlen : (length (t_offers s1) <= length (nbr y))%nat).
+    { rewrite K1of. rewrite <- (map_length fst). apply NoDup_incl_length; apply Nd1. }
+    cbv zeta in Hm. rewrite zlen_eqb in Hm.
+    (* the world after the store *)
+    assert (P1r : forall x', In x' (nbr y) -> pairI rn (updS S y s1) (pd_step pd x y (l1 ++ l2) []) x' y).
+    { intros x' Hx'. assert (Hx'y : x' <> y) by (intros ->; eapply nbrs_irrefl; eauto).
+      destruct (pd_step_recv pd x y l1 (M2Offer f os) l2 [] x' Hp Hx'y) as [Hc Hi].
+      apply (pairI_store rn S pd); rewrite ?updS_same, ?updS_other by assumption; try reflexivity; try assumption;
+        rewrite ?Hc, ?K1nv, ?K1of, ?K1ng; simpl kind_of; try (rewrite andb_false_r; simpl; lia).
+      + rewrite kino_snoc. destruct (Z.eqb_spec x' x) as [->|Hn]; simpl.
+        * rewrite Hko. simpl. lia.
+        * rewrite orb_false_r. lia.
+      + intros f0 os0 _ H. apply in_app_or in H as [H|[H|[]]]; [left; exact H|right].
+        injection H as -> -> ->. exact Hinp.
+      + apply (i_pair _ _ _ _ _ HI x' y Hx'). }
+    assert (P1s : forall w, In w (nbr y) -> pairI rn (updS S y s1) (pd_step pd x y (l1 ++ l2) []) y w).
+    { intros w Hw. assert (Hwy : w <> y) by (intros ->; eapply nbrs_irrefl; eauto).
+      apply (pairI_ext rn S pd); rewrite ?updS_same, ?updS_other by assumption; try reflexivity; try assumption.
+      + intros k. rewrite pd_step_send. simpl. rewrite app_nil_r. reflexivity.
+      + intros m0. rewrite pd_step_send. simpl. rewrite app_nil_r. auto.
+      + apply (i_pair _ _ _ _ _ HI y w (nbrs_sym d y w Hw)). }
+    destruct (Nat.eqb (length (t_offers s1)) (length (nbr y))) eqn:Ez.
+    2:{ (* ---- the offer is filed, the table is not complete *)
+      apply Nat.eqb_neq in Ez. unfold ret2 in Hm.
+      injection Hm as <- <- <-.
+      assert (G1 : good y s1).
+      { destruct Gy. constructor; rewrite ?K1st, ?K1cy, ?K1fi, ?K1nv, ?K1of, ?K1ng, ?K1pa, ?K1co, ?K1or, ?K1pg; auto.
+        - intros H. rewrite Hk in H. clear - H. lia.
+        - intros _. rewrite <- K1of. clear - Ez Hlen. lia.
+        - intros H. rewrite Hk in H. clear - H. lia. }
+      split; [|split; [apply evok_nil; rewrite K1fi; reflexivity|split; [exact Po1|intros Hc; rewrite K1st in Hc; congruence]]].
+      apply (step_frame d stop rn S pd y s1 x (l1 ++ l2) [] HI Ry Hact Hxy G1 P1r P1s).
+      intros w _. reflexivity. }
+    (* ---- the table is complete *)
+    apply Nat.eqb_eq in Ez.
+    rewrite <- K1of in Nd1. destruct Nd1 as (Nd1 & Inc1 & Fk1).
+    assert (K1k : t_state s1 = 2) by (rewrite K1st; exact Hk).
+    assert (Hfull : forall w, In w (nbr y) -> In w (map fst (t_offers s1))).
+    { intros w Hw. apply (full_in _ (nbr y) w Nd1 Inc1); [rewrite map_length; exact Ez|exact Hw]. }
+    assert (Hall : forall w, In w (nbr y) -> rn w = true /\ t_cycle (S w) = t_cycle (S y) /\ 2 <= t_state (S w) <= 4 /\
+                                              cnt 2 (pd_step pd x y (l1 ++ l2) [] w y) = 0).
+    { intros w Hw. assert (Hwy : w <> y) by (intros ->; eapply nbrs_irrefl; eauto).
+      destruct (pd_step_recv pd x y l1 (M2Offer f os) l2 [] w Hp Hwy) as [Hc _]. specialize (Hc 2). simpl kind_of in Hc.
+      pose proof (Hfull w Hw) as Hin. apply kino_In in Hin. rewrite K1of, kino_snoc in Hin.
+      destruct (Z.eqb_spec w x) as [->|Hn].
+      - split; [exact Rx|]. split; [exact Hcyc|]. split; [exact Hkx|]. rewrite Hko in Hone. simpl in Hc, Hone.
+        clear - Hc Hone. lia.
+      - rewrite orb_false_r in Hin. pose proof (cnt_nonneg 2 (pd w y)) as Hnn.
+        destruct (nbr_here y w Ry Hk Hw) as (R & C & K & O); [rewrite Hin; simpl; clear - Hnn; lia|].
+        split; [exact R|]. split; [exact C|]. split; [exact K|]. rewrite Hin in O. simpl in Hc, O. clear - Hc O Hnn. lia. }
+    assert (Hflag : forall w f' os', In w (nbr y) -> In (w, M2Offer f' os') (t_offers s1) ->
+                      f' = t_offerer (S w) && opt_is (t_partner (S w)) y).
+    { intros w f' os' Hw Hin. assert (Hwy : w <> y) by (intros ->; eapply nbrs_irrefl; eauto).
+      pose proof (p_PS _ _ _ _ _ (P1r w Hw) f' os') as H. rewrite updS_same, updS_other in H by assumption.
+      apply H; assumption. }
+    set (OFF := offering (t_offers s1)) in *.
+    assert (HoffA : forall w os', In (w, os') OFF -> In w (nbr y) /\ expA S w y).
+    { intros w os' Hin. apply offering_in in Hin.
+      assert (Hw : In w (nbr y)). { apply Inc1. apply in_map_iff. exists (w, M2Offer true os'). split; [reflexivity|exact Hin]. }
+      split; [exact Hw|]. pose proof (Hflag w true os' Hw Hin) as Hf. symmetry in Hf. apply andb_true_iff in Hf as [Hf1 Hf2].
+      assert (Hpw : t_partner (S w) = Some y).
+      { destruct (t_partner (S w)) as [q|]; simpl in Hf2; [|discriminate]. apply Z.eqb_eq in Hf2. rewrite Hf2. reflexivity. }
+      destruct (Hall w Hw) as (Rw & Cw & Kw & _).
+      split; [exact Hf1|]. split; [exact Hpw|]. split; [apply Kw|].
+      destruct (Z_le_gt_dec 4 (t_state (S w))) as [H4|H4]; [exfalso|clear - H4; lia].
+      pose proof (p_Ans _ _ _ _ _ (i_pair _ _ _ _ _ HI w y Hw) Hf1 Hpw H4) as HA. clear - HA Cw Hk. lia. }
+    assert (HAoff : forall w, In w (nbr y) -> expA S w y -> exists os', In (w, os') OFF).
+    { intros w Hw (E1 & E2 & E3). pose proof (Hfull w Hw) as Hin. apply in_map_iff in Hin as [[w' m] [Hw' Hin]].
+      simpl in Hw'. subst w'. pose proof (proj1 (Forall_forall _ _) Fk1 _ Hin) as Hkd. simpl in Hkd.
+      destruct m as [| |f' os'| |]; try discriminate.
+      pose proof (Hflag w f' os' Hw Hin) as Hf. rewrite E1, E2 in Hf. simpl in Hf. rewrite Z.eqb_refl in Hf. subst f'.
+      exists os'. apply offering_in. exact Hin. }
+    assert (NdO : NoDup (map fst OFF)) by (apply offering_nodup; exact Nd1).
+    assert (Hinb1 : forall w, zmem w (map fst OFF) = true -> In w (nbr y) /\ expA S w y).
+    { intros w H. apply zmem_In in H. apply in_map_iff in H as [[w' os'] [Hw' Hin]]. simpl in Hw'. subst w'.
+      apply (HoffA w os' Hin). }
+    assert (Hinb2 : forall w, In w (nbr y) -> expA S w y -> zmem w (map fst OFF) = true).
+    { intros w Hw HE. destruct (HAoff w Hw HE) as [os' Hin]. apply zmem_In. apply in_map_iff.
+      exists (w, os'). split; [reflexivity|exact Hin]. }
+    assert (Hchg : forall o x', In x' (nbr y) -> cnt (t_state (S y)) (pd_step pd x y (l1 ++ l2) o x' y) = 0).
+    { intros o x' Hx'. assert (Hx'y : x' <> y) by (intros ->; eapply nbrs_irrefl; eauto).
+      rewrite Hk, (pd_step_recv_indep pd x y (l1 ++ l2) o [] x' Hx'y). apply (Hall x' Hx'). }
+    destruct (t_offerer (S y)) eqn:Eo.
+    { (* ---- y is an offerer: rejections, state answer? *)
+      destruct (hom0_offerer d favor y s1 K1or) as (s' & Hh & K2 & Po2). fold OFF in Hh.
+      rewrite Hh in Hm. injection Hm as <- <- <-.
+      unfold skel in K2. injection K2 as K2st K2cy K2fi K2nv K2of K2ng K2pa K2co K2or K2pg.
+      assert (G2 : good y s').
+      { pose proof Gy as Gy0. destruct Gy.
+        constructor; rewrite ?K2st, ?K2cy, ?K2fi, ?K2nv, ?K2of, ?K2ng, ?K2pa, ?K2co, ?K2or, ?K2pg;
+          rewrite ?K1cy, ?K1fi, ?K1nv, ?K1ng, ?K1pa, ?K1co, ?K1or, ?K1pg; auto; try (intros H; discriminate H).
+        - clear; lia.
+        - intros H. pose proof (P_Mgm2y.g_done _ _ _ _ Gy0 H) as H'. rewrite Hk in H'. discriminate H'.
+        - intros _. apply (P_Mgm2y.g_nv2 _ _ _ _ Gy0). rewrite Hk. clear; lia.
+        - intros _. apply (P_Mgm2y.g_ng3 _ _ _ _ Gy0). rewrite Hk. clear; lia.
+        - intros _. apply (P_Mgm2y.g_com23 _ _ _ _ Gy0). rewrite Hk. clear; lia. }
+      split; [|split; [apply evok_nil; rewrite K2fi, K1fi; reflexivity|split; [rewrite Po2; exact Po1|intros _; apply Hchg]]].
+      apply (step_frame d stop rn S pd y s' x (l1 ++ l2) _ HI Ry Hact Hxy G2).
+      - intros x' Hx'. assert (Hx'y : x' <> y) by (intros ->; eapply nbrs_irrefl; eauto).
+        apply (recv_to3 rn (updS S y s1) (updS S y s') (pd_step pd x y (l1 ++ l2) []) _ x' y);
+          rewrite ?updS_same, ?updS_other by assumption; try reflexivity; try assumption.
+        + apply pd_step_recv_indep. exact Hx'y.
+        + apply (P1r x' Hx').
+      - intros w Hw. assert (Hwy : w <> y) by (intros ->; eapply nbrs_irrefl; eauto).
+        apply (send_to3 rn (updS S y s1) (updS S y s') (pd_step pd x y (l1 ++ l2) []) _ y w (zmem w (map fst OFF)));
+          rewrite ?updS_same, ?updS_other by assumption; try reflexivity; try assumption.
+        + rewrite !pd_step_send. simpl to_y2 at 1. rewrite app_nil_r. f_equal.
+          apply (to_y2_off' reject (fun _ => M2Answer false None None)); [intros so; reflexivity|exact NdO].
+        + intros H. destruct (Hinb1 w H) as [_ HE]. unfold expA. rewrite updS_other by assumption. exact HE.
+        + intros HE. unfold expA in HE. rewrite updS_other in HE by assumption. apply (Hinb2 w Hw HE).
+        + apply (P1s w Hw).
+      - intros w Hw. rewrite (to_y2_off' reject (fun _ => M2Answer false None None)); [|intros so; reflexivity|exact NdO].
+        destruct (zmem w (map fst OFF)) eqn:E; [|reflexivity]. exfalso. apply Hw. apply (Hinb1 w E). }
+    (* ---- y is not an offerer: answers and gains, state gain *)
+    assert (Hco : t_committed (S y) = false) by (apply (g_com23 _ _ _ _ Gy); rewrite Hk; clear; lia).
+    assert (Hpa : t_partner (S y) = None) by (apply (g_nopar _ _ _ _ Gy); assumption).
+    rewrite Hco in K1co. rewrite Hpa in K1pa.
+    destruct (hom0_other d favor y s1 K1or K1pa) as (s' & com & p & vp & gain & gv & Hh & Hcom & K2 & Po2).
+    fold OFF in Hh, Hcom.
+    rewrite Hh in Hm. injection Hm as <- <- <-.
+    unfold skel in K2. injection K2 as K2st K2cy K2fi K2nv K2of K2ng K2pa K2co K2or.
+    assert (G2 : good y s').
+    { pose proof Gy as Gy0. destruct Gy.
+      constructor; rewrite ?K2st, ?K2cy, ?K2fi, ?K2nv, ?K2of, ?K2ng, ?K2pa, ?K2co, ?K2or;
+        rewrite ?K1cy, ?K1fi, ?K1nv, ?K1ng; auto; try (intros H; discriminate H).
+      all: admit. }
+    admit.
+  Admitted.
+End StepO.
